@@ -164,10 +164,9 @@ theorem onPacket_safe (c : Crypto G) (env : Env) (hb : env.bindsHash = true)
     · exact onVerify_safe c env hb l.proc _ h
   · split
     · exact enterSigning_safe c env hb ord l _ _ _
-    · exact h
-  · split; · exact h
-    split <;> exact h
+    · split <;> exact h
   · split <;> exact h
+  · exact h
   · split <;> exact h
 
 theorem foldPackets_safe (c : Crypto G) (env : Env) (hb : env.bindsHash = true)
@@ -264,8 +263,8 @@ theorem step_dead (c : Crypto G) (env : Env) (ord : List (VMsg G) → List (VMsg
       rw [hg]
       simp only []
       split
-      · exact ⟨rfl, rfl, Or.inl rfl⟩
       · exact ⟨rfl, rfl, hd⟩
+      · exact ⟨rfl, rfl, Or.inl rfl⟩
     | timeout =>
       have : l.onTimeout = l := by simp only [Life.onTimeout, hg]
       have hstep : l.step c env ord .timeout = l.onTimeout := rfl
